@@ -1224,7 +1224,9 @@ def get_signals(signal_array, frame, ea, multiplex_id, float_factory, bit_offset
         else:
             lower = ea.get_child(datatype, "LOWER-LIMIT")
             upper = ea.get_child(datatype, "UPPER-LIMIT")
-            type_encoding = ea.get_child(datatype, "ENCODING")
+            encoding_elem = ea.get_child(datatype, "ENCODING")  # AR3 REAL-TYPE: SINGLE / DOUBLE
+            if encoding_elem is not None and encoding_elem.text:
+                type_encoding = encoding_elem.text
 
         if lower is not None and upper is not None:
             signal_min = float_factory(lower.text)
